@@ -312,6 +312,8 @@ func mathCorpus(w *lib.Writer) {
 		mIn("floor", -0.5), mIn("ceil", -0.5), mIn("floor", math.Copysign(0, -1)),
 		mIn("fmod", -6, 3), mIn("fmod", 5.5, -2), mIn("fmod", 1, 0), mIn("fmod", 1e308, 5e-324),
 		mIn("frexp", 5e-324), mIn("frexp", 0), mIn("ldexp", 1, -1074), mIn("ldexp", 3, -1075), mIn("ldexp", 1, 1024),
+		mIn("ldexp", 0.5, -(1 << 63)), mIn("ldexp", 5e-324, -(1<<63)+1024), mIn("ldexp", 1-0x1p-53, -(1 << 63)), // exponent sum wrapped inside math.Ldexp: +Inf (fixed)
+		mIn("ldexp", 1, -1023), mIn("ldexp", 0x1p1000, -1023), mIn("ldexp", 0.5, -1023), mIn("ldexp", math.Inf(1), -1023), // seeded C15-10: biased exponent 0 is not 2^-1023
 		mIn("ldexp", 1, 2.7), mIn("max", 1, math.NaN(), 2), mIn("max", math.NaN(), 1), mIn("min", 0, math.Copysign(0, -1)),
 		mIn("min", math.Copysign(0, -1), 0), mIn("max", 0, math.Copysign(0, -1)), mIn("max", math.Copysign(0, -1), 0),
 		mIn("max", math.Copysign(0, -1), 0, math.Copysign(0, -1)),
